@@ -28,6 +28,13 @@
 #               before the 24 characters of re._special_chars_map);  s.replace(/[class]/g, 'pre$&post') for a class of plain /
 #               escaped punctuation characters without ranges -> escape_class [codes] pre post s (a name bound to such a literal
 #               at top level may stand for it).
+#   segments    re.findall(<the text DICT_RX>, s) (Python) and the exec loop over new RegExp(<DICT_RX>, 'g') (JavaScript; a match object of
+#               this group-free pattern used as a string is its text) -> dict_segments s (VarsIx.v = ParserVars.segments: the maximal
+#               runs of the class), keyed on the exact pattern text.  A helper that takes a compiled pattern (get_all_matches) is
+#               SPECIALISED to the constant pattern of its only call site (the parameter is removed, the name stands for the pattern).
+#   search      for x in l: if c: return e  (nothing else in the body, e does not mention x, no loop-carried state)  ->
+#   loops       if existsb (fun x => c) l then e else <what follows>;  JavaScript for (let x of l) likewise.
+#   JavaScript  assert(c); -> like Python's assert;  s.replace(/c/g, '..') also for the one-character patterns backslash, \n, \r, \t, ', `.
 import ast
 import json
 import os
@@ -54,6 +61,21 @@ JOBS = {
                    result={'like_to_regex': 'str', 'regexp_escape': 'str'}, partial={'like_to_regex': False, 'regexp_escape': False}, mutated={}),
     },
 }
+
+DICT_RX = '[-a-zA-Z0-9_:;+=!.,()%^#@&* ]+'
+ESC_PY = 'python_string_escape_column_name'
+ESC_JS = 'js_string_escape_column_name'
+PRE = 'query_probably_has_dictionary_variable'
+JOBS['vars'] = {
+    'py': dict(src=PY_SRC, base='GenVars', tmpl='gen_vars_tie.v.tmpl', imports='ParserVars LikeIx VarsIx', covered=[ESC_PY, PRE], optional=[],
+               sigs={ESC_PY: [('column_name', 'str', None), ('quote_char', 'str', None)], PRE: [('query_text', 'str', None), ('column_name', 'str', None)]},
+               fuel={}, result={ESC_PY: 'str', PRE: 'bool'}, partial={ESC_PY: True, PRE: False}, mutated={}),
+    'js': dict(src=JS_SRC, base='GenVarsJs', tmpl='gen_vars_tie_js.v.tmpl', imports='JsStr ParserVars LikeIx VarsIx', covered=[ESC_JS, PRE], optional=[],
+               sigs={ESC_JS: [('column_name', 'str', None), ('quote_char', 'str', None)], PRE: [('query_text', 'str', None), ('column_name', 'str', None)]},
+               fuel={}, result={ESC_JS: 'str', PRE: 'bool'}, partial={ESC_JS: True, PRE: False}, mutated={}),
+}
+# s.replace(/c/g, ..) for these one-character patterns (beside the two of translate_csv.py): literal text -> the character it matches
+JS_REPLACE_MORE = {('\\\\', 'g'): '\\', ('\\n', 'g'): '\n', ('\\r', 'g'): '\r', ('\\t', 'g'): '\t', ("'", 'g'): "'", ('`', 'g'): '`'}
 
 RE_SPECIAL_PY = '()[]{}?*+-|^$\\.&~# \t\n\r\x0b\x0c'      # re._special_chars_map of CPython 3.7 .. 3.13
 
@@ -162,7 +184,28 @@ class FnTr2(T.FnTr):
             if a.ty != 'str':
                 T.refuse(node, 're.escape of a %s' % T.show_type(a.ty))
             return T.E('(py_re_escape %s)' % a.text, 'str')
+        if (not T.LANG.js and isinstance(f, ast.Attribute) and isinstance(f.value, ast.Name) and f.value.id == 're' and 're' not in env
+                and f.attr == 'findall' and len(node.args) == 2 and not node.keywords):
+            if not getattr(self.mod, 're_is_re', False):
+                T.refuse(node, 'the name re is not (only) bound by `import re`')
+            txt = self.mod.const_text(node.args[0])
+            if txt != DICT_RX:
+                T.refuse(node, 're.findall with a pattern text outside the table: %r' % (txt,))
+            a = self.expr(node.args[1], env)
+            if a.ty != 'str':
+                T.refuse(node, 're.findall on a %s' % T.show_type(a.ty))
+            return T.E('(dict_segments %s)' % a.text, T.new_list('str'))
         return super().e_Call(node, env)
+
+    def rx_call(self, node, r, method, env):
+        if r.text == 'RxDictSeg':
+            if method != 'exec_all' or len(node.args) != 1:
+                T.refuse(node, 'method %s on the segment pattern' % method)
+            a = self.expr(node.args[0], env)
+            if a.ty != 'str':
+                T.refuse(node, 'exec on a %s' % T.show_type(a.ty))
+            return '(dict_segments %s)' % a.text
+        return super().rx_call(node, r, method, env)
 
     def js_method(self, node, f, x, env):
         if x.ty == 'str' and f.attr == 'charAt' and len(node.args) == 1:
@@ -202,7 +245,30 @@ class FnTr2(T.FnTr):
         return super().iterable(node, env)
 
     # -- statements
+    def search_loop(self, st, env, k):
+        if not (isinstance(st.target, ast.Name) and not st.orelse and len(st.body) == 1 and isinstance(st.body[0], ast.If) and not st.body[0].orelse
+                and len(st.body[0].body) == 1 and isinstance(st.body[0].body[0], ast.Return) and st.body[0].body[0].value is not None):
+            return None
+        if self.loop_depth:
+            return None
+        x = st.target.id
+        ret = st.body[0].body[0]
+        if any(isinstance(n, ast.Name) and n.id == x for n in ast.walk(ret.value)):
+            return None
+        xs, elem = self.iterable(st.iter, env)
+        inner = dict(env)
+        xc = T.coq_name(x)
+        inner[x] = T.Var('str' if elem == 'g0' else elem, xc)
+        c = self.truth(st.body[0].test, inner)
+        found = self.s_Return(ret, env, None)
+        after = dict(env)
+        after.pop(x, None)
+        return 'if (existsb (fun %s => %s) %s) then\n%s\nelse\n%s' % (xc, c.text, xs, T.indent(found), T.indent(k(after)))
+
     def s_For(self, st, env, k):
+        sl = self.search_loop(st, env, k)
+        if sl is not None:
+            return sl
         if isinstance(st.target, ast.Name) and st.target.id in env and not getattr(st, 'counting', False):
             tid = st.target.id
 
@@ -481,6 +547,37 @@ def py_module(text, path, fname):
     return mod
 
 
+def specialise_rx_helpers(mod, covered):
+    """f(rgx, ..) where rgx is a local name bound once to new RegExp(<constants>) in a covered function and f is a helper with exactly
+    this one call in the translated functions: the parameter is removed from f and its name stands for the constant pattern there"""
+    for cn in covered:
+        fn = mod.funcs.get(cn)
+        if fn is None:
+            continue
+        binds = {}
+        for n in ast.walk(fn):
+            if isinstance(n, ast.Assign) and len(n.targets) == 1 and isinstance(n.targets[0], ast.Name):
+                binds.setdefault(n.targets[0].id, []).append(n.value)
+        for call in [n for n in ast.walk(fn) if isinstance(n, ast.Call) and isinstance(n.func, ast.Name) and n.func.id in mod.funcs and n.func.id not in covered]:
+            h = mod.funcs[call.func.id]
+            for j, a in enumerate(list(call.args)):
+                if not (isinstance(a, ast.Name) and len(binds.get(a.id, [])) == 1):
+                    continue
+                pat = mod.compile_text(binds[a.id][0])
+                if pat is None:
+                    continue
+                ncalls = sum(1 for c2 in covered if c2 in mod.funcs for n in ast.walk(mod.funcs[c2]) if isinstance(n, ast.Call) and isinstance(n.func, ast.Name) and n.func.id == h.name)
+                if ncalls != 1 or j >= len(h.args.args) or h.args.defaults:
+                    raise T.Refuse('%s: the helper %s takes a compiled pattern and has %d call sites' % (T.LANG.src_rel, h.name, ncalls))
+                pn = h.args.args[j].arg
+                if pn in T.assigned_names(h.body) or pn in mod.consts or pn in mod.rx or pn in mod.funcs or pn in mod.opaque:
+                    raise T.Refuse('%s: the pattern parameter %s of %s is assigned or clashes with a top-level name' % (T.LANG.src_rel, pn, h.name))
+                del h.args.args[j]
+                del call.args[j]
+                mod.rx[pn] = pat
+                break
+
+
 def translate(job, lang):
     spec = JOBS[job][lang]
     T.LANG = LangFn(lang, spec)
@@ -488,12 +585,16 @@ def translate(job, lang):
     T.OPTIONAL = spec['optional']
     T.FnTr = FnTr2
     T.RESERVED = set(T.RESERVED) | EXTRA_RESERVED
+    T.JS_REPLACE_LITERALS.update(JS_REPLACE_MORE)
+    T.RX_TABLE_JS[(DICT_RX, 'g')] = ('RxDictSeg', {'exec_all'})
     path = os.path.join(REPO, spec['src'])
     text = open(path, encoding='utf-8').read()
     if lang == 'js':
         mod = js_module(text, spec['covered'], spec['optional'], spec['src'])
     else:
         mod = py_module(text, path, spec['src'])
+    if lang == 'js':
+        specialise_rx_helpers(mod, spec['covered'])
     todo, infos = T.analyse(mod, spec['covered'])
     for n in todo:
         infos[n].partial = fn_partial(mod.funcs[n], infos, mod)
